@@ -81,12 +81,40 @@ macro_rules! parts {
 
 static SYS: LockStep = LockStep { property: "C07", probes: true, seed: Some(&seed) };
 static SYS_BLANK: LockStep = LockStep { property: "C07", probes: true, seed: None };
+static SYS_MED: LockStep = LockStep { property: "C07", probes: false, seed: Some(&seed) };
+
+fn alpha_medium(cfg: &Cfg) -> Vec<Op> {
+    let mut v = alpha(cfg);
+    for n in [3u32, 4, 5, 7, 255, 256, 257] {
+        for cmd in [Ech(Some(n)), Ich(Some(n)), Dch(Some(n))] {
+            v.push(c(cmd));
+        }
+    }
+    v
+}
+
+fn medium_part(tier: Tier) -> Part<'static, LockStep> {
+    Part {
+        name: "edit-lockstep-medium-screen",
+        sys: &SYS_MED,
+        cfgs: match tier {
+            Tier::Quick => cfgs(&[(7, 3)], &[None]),
+            Tier::Thorough => cfgs(&[(7, 3), (8, 5)], &[None]),
+        },
+        alphabet: &alpha_medium,
+        depth: tier.pick(3, 4),
+        seconds: tier.pick(20.0, 1800.0),
+        validated: true,
+        nontrivial: Some("lockstep_transitions"),
+    }
+}
 
 pub fn run(ctx: &Ctx) -> Report {
     let mut rep = Report::new();
     let (a, b) = parts!(ctx.tier, &SYS, &SYS_BLANK);
     run_part(ctx, &mut rep, &a);
     run_part(ctx, &mut rep, &b);
+    run_part(ctx, &mut rep, &medium_part(ctx.tier));
     rep.rule = "lock-step BFS of (real Vt, reference terminal) from a screen completely filled with distinct letters (all rows soft-wrapped) and from a blank screen: ED/EL x selectors {default,0,1,2}, ECH/ICH/DCH x counts {default,0,1,2,w-1,w,w+1,65535}, DECALN, with the cursor on every cell and in the wrap-pending column, three pens; every cell of lines(), the cursor (exact, incl. the pending column) and the specified wrap marks are compared after every transition".into();
     rep.assumptions = vec!["erase extents are computed from the reported column (R2); marks after EL 1 / ED 1 on the cursor row, ICH and DECALN are adopted".into()];
     rep
@@ -96,6 +124,7 @@ pub fn replay(ctx: &Ctx, v: &Value) -> bool {
     let tier = if v["tier"] == "thorough" { Tier::Thorough } else { Tier::Quick };
     let (a, b) = parts!(tier, &SYS, &SYS_BLANK);
     match v["part"].as_str().unwrap_or("") {
+        "edit-lockstep-medium-screen" => replay_part(ctx, &medium_part(tier), v),
         "edit-lockstep-filled-screen" => replay_part(ctx, &a, v),
         _ => replay_part(ctx, &b, v),
     }
